@@ -229,7 +229,29 @@ pub fn judge_minmax(ns: &NumSession, name: &str, args: &[&Opnd]) -> Report {
     rep.note = obs.show();
     rep.nontrivial = nontrivial(args);
     let first = judge_minmax_once(&obs, name, args);
+    let passed = first.is_none();
     with_attribution(ns, &mut rep, name, args, first, &|o, a| judge_minmax_once(o, name, a));
+    if passed && args.iter().all(|o| o.r.is_exact() && o.canonical) {
+        // second observation path: the returned number is eqv? to the extreme argument (same exactness, same value)
+        let want_max = name == "max";
+        let mut best = args[0];
+        for o in &args[1..] {
+            let c = o.r.cmp_exact(best.r);
+            if (want_max && c == Ordering::Greater) || (!want_max && c == Ordering::Less) {
+                best = o;
+            }
+        }
+        if let Some(v) = ns.apply_raw(&pr, args.iter().map(|o| o.val.clone()).collect()) {
+            let eqv = ns.proc_named("eqv?");
+            match ns.apply_raw(&eqv, vec![v, best.val.clone()].into_iter().collect()) {
+                Some(ruschm::values::Value::Boolean(true)) => {}
+                other => rep.fail(
+                    format!("minmax-result-not-eqv-to-extreme:{}", name),
+                    format!("(eqv? ({} {}) {}) = {:?}", name, args.iter().map(|o| o.text.as_str()).collect::<Vec<_>>().join(" "), best.text, other.map(|v| v.to_string())),
+                ),
+            }
+        }
+    }
     rep
 }
 
@@ -280,7 +302,8 @@ pub fn run(ctx: &Ctx) {
     ctx.set_rule(
         "predicates = < > <= >= over every ordered pair and every ordered triple (quick: strided sample of triples) of \
          the numeric grid (literals and values produced by arithmetic, so every representation meets every other), \
-         max/min over pairs and triples, eqv? over pairs, order laws (trichotomy, transitivity, <= decomposition) on \
+         max/min over pairs and triples (value and exactness, and as a second observation path the result must be eqv? \
+         to the extreme argument), eqv? over pairs, order laws (trichotomy, transitivity, <= decomposition) on \
          exact values, plus random operands built as values. Oracle: i128 cross-multiplication for exact operands, \
          binary32 comparison after conversion for mixed ones. Non-trivial = operands with different internal \
          representations, non-canonical representations, or values closer than 1/1000 relative.",
